@@ -307,6 +307,7 @@ func (e *Enc) run(known compSet) {
 		}
 	}
 	e.pre = st0.clone()
+	e.useLemmas(st0)
 	incoming := map[*ssa.BasicBlock][]*State{}
 	idx := map[*ssa.BasicBlock]int{}
 	for i, b := range order {
@@ -386,6 +387,7 @@ func (e *Enc) enterLoop(li *loopInfo, st *State) {
 		invs, decs = li.spec.Invariants, li.spec.Decreases
 	}
 	// inv_init
+	e.useLemmas(st)
 	sc := e.specCtx(st, e.pre)
 	for i, cl := range invs {
 		t, err := sc.evalBool(cl.Expr)
@@ -402,6 +404,11 @@ func (e *Enc) enterLoop(li *loopInfo, st *State) {
 	}
 	e.havoc(st, ms, "l")
 	e.assumeGlobalInvs(st)
+	// implicit loop invariant: the function's own frame (checked at every back edge)
+	for _, g := range e.frameGoals(st, nil) {
+		e.assume(st.reach, g.goal)
+	}
+	e.useLemmas(st)
 	sc = e.specCtx(st, e.pre)
 	for _, cl := range invs {
 		t, err := sc.evalBool(cl.Expr)
@@ -425,9 +432,15 @@ func (e *Enc) enterLoop(li *loopInfo, st *State) {
 
 func (e *Enc) backEdge(li *loopInfo, st *State) {
 	pr := e.autoProps()
+	if e.c != nil {
+		for _, g := range e.frameGoals(st, nil) {
+			e.oblige("frame", fmt.Sprintf("loop%d.modifies.%s", li.ordinal, g.name), e.c.Props, st.reach, g.goal, g.desc, blockPos(li.header))
+		}
+	}
 	if li.spec == nil {
 		return
 	}
+	e.useLemmas(st)
 	sc := e.specCtx(st, e.pre)
 	for i, cl := range li.spec.Invariants {
 		t, err := sc.evalBool(cl.Expr)
@@ -1151,6 +1164,7 @@ func (e *Enc) ret(st *State, ins *ssa.Return) {
 	for _, r := range ins.Results {
 		results = append(results, e.val(st, r))
 	}
+	e.useLemmas(st)
 	sc := e.specCtx(st, e.pre)
 	sc.bindResults(results, e.fn.Signature.Results())
 	for i, cl := range e.c.Ensures {
